@@ -101,45 +101,41 @@ func runC02(e *Engine, r *Report, tier string) {
 		}
 		r.Ok("R1", k+" threshold-branch", e.InstrPos(cs.Call), "applied only on `not (sum < required)`")
 		// required = K * get(0x39) / 100
-		okReq, why := false, "shape is not <constant>.Mul(total).Quo(100)"
-		if q, ok := req.(*ssa.Call); ok && callName(q) == "Quo" {
-			qa := callArgs(q)
-			if len(qa) == 2 {
-				hundred := false
-				if c100, ok := qa[1].(*ssa.Call); ok && strings.HasPrefix(callName(c100), "NewInt") {
-					if v, ok := constInt(c100.Common().Args[0]); ok && v == 100 {
-						hundred = true
+		okReq, why := false, "the bar is not <threshold constant> * <recorded total power> / 100"
+		if t := e.arithOf(req, nil, 0); t != nil {
+			switch {
+			case t.op == "Quo" && t.b != nil && t.b.isK && t.b.k == 100 && t.a != nil && t.a.op == "Mul":
+				var kval *ssa.Global
+				var tot ssa.Value
+				for _, side := range []*arith{t.a.a, t.a.b} {
+					if side == nil || side.op != "" {
+						continue
 					}
-				}
-				if m, ok := qa[0].(*ssa.Call); ok && callName(m) == "Mul" && hundred {
-					ma := callArgs(m)
-					var kval *ssa.Global
-					var tot ssa.Value
-					for _, x := range ma {
-						if u, ok := x.(*ssa.UnOp); ok {
-							if g, ok := u.X.(*ssa.Global); ok {
-								kval = g
-								continue
-							}
-						}
-						tot = x
-					}
-					if kval != nil && tot != nil {
-						if _, ok := e.valueReadsFamily(tot, cc, "39"); ok {
-							v, okv := e.globalInitInt(strings.TrimPrefix(kval.Pkg.Pkg.Path(), ModPath+"/"), kval.Name())
-							switch {
-							case !okv:
-								why = "threshold constant " + kval.Name() + " is not initialised from an integer literal"
-							case v != 66:
-								why = fmt.Sprintf("threshold constant %s is %d, the property requires 66", kval.Name(), v)
-							default:
-								okReq = true
-							}
-						} else {
-							why = "the total is not the recorded total power read from 0x39"
+					if u, ok := side.leaf.(*ssa.UnOp); ok {
+						if g, ok := u.X.(*ssa.Global); ok {
+							kval = g
+							continue
 						}
 					}
+					tot = side.leaf
 				}
+				if kval != nil && tot != nil {
+					if _, ok := e.valueReadsFamily(tot, cc, "39"); ok {
+						v, okv := e.globalInitInt(strings.TrimPrefix(kval.Pkg.Pkg.Path(), ModPath+"/"), kval.Name())
+						switch {
+						case !okv:
+							why = "threshold constant " + kval.Name() + " is not initialised from an integer literal"
+						case v != 66:
+							why = fmt.Sprintf("threshold constant %s is %d, the property requires 66", kval.Name(), v)
+						default:
+							okReq = true
+						}
+					} else {
+						why = "the total is not the recorded total power read from 0x39"
+					}
+				}
+			case t.op == "Mul" && ((t.a != nil && t.a.op == "Quo") || (t.b != nil && t.b.op == "Quo")):
+				why = "the total is divided by 100 before it is multiplied by the threshold: the truncated quotient lowers the bar (to 0 for a total below 100)"
 			}
 		}
 		r.Check(okReq, "R1", k+" required", e.InstrPos(cs.Call), "required = 66 * get(0x39) / 100", "quorum bar: "+why)
@@ -535,4 +531,61 @@ func lastSeg(s string) string {
 func guardedDelegate(e *Engine, h *Handler) (string, bool) {
 	ok, why := e.isPureDelegate(h)
 	return why, ok
+}
+
+// arith: a small expression tree over math.Int arithmetic (Mul / Quo and their *Raw forms), constants and leaves. One-block
+// fx-core helpers that only return such an expression over their parameters are looked through.
+type arith struct {
+	op   string // "Mul", "Quo", or "" for a leaf
+	a, b *arith
+	leaf ssa.Value
+	k    int64
+	isK  bool
+}
+
+func (e *Engine) arithOf(v ssa.Value, env map[*ssa.Parameter]ssa.Value, depth int) *arith {
+	if v == nil || depth > 8 {
+		return nil
+	}
+	v = stripConv(v)
+	if p, ok := v.(*ssa.Parameter); ok && env != nil {
+		if a, ok := env[p]; ok {
+			return e.arithOf(a, nil, depth+1)
+		}
+	}
+	if k, ok := constInt(v); ok {
+		return &arith{k: k, isK: true, leaf: v}
+	}
+	c, ok := v.(*ssa.Call)
+	if !ok {
+		return &arith{leaf: v}
+	}
+	n := callName(c)
+	args := callArgs(c)
+	switch {
+	case (n == "Mul" || n == "Quo") && len(args) == 2:
+		return &arith{op: n, a: e.arithOf(args[0], env, depth+1), b: e.arithOf(args[1], env, depth+1)}
+	case (n == "MulRaw" || n == "QuoRaw") && len(args) == 2:
+		return &arith{op: strings.TrimSuffix(n, "Raw"), a: e.arithOf(args[0], env, depth+1), b: e.arithOf(args[1], env, depth+1)}
+	case strings.HasPrefix(n, "NewInt") && len(c.Call.Args) == 1:
+		return e.arithOf(c.Call.Args[0], env, depth+1)
+	}
+	if f := c.Call.StaticCallee(); f != nil && !c.Call.IsInvoke() && len(f.Blocks) == 1 && strings.HasPrefix(fnPkgPath(f), ModPath) && len(f.Params) == len(c.Call.Args) {
+		if ret, ok := f.Blocks[0].Instrs[len(f.Blocks[0].Instrs)-1].(*ssa.Return); ok && len(ret.Results) == 1 {
+			env2 := map[*ssa.Parameter]ssa.Value{}
+			for i, p := range f.Params {
+				a := c.Call.Args[i]
+				if ap, ok := stripConv(a).(*ssa.Parameter); ok && env != nil {
+					if up, ok := env[ap]; ok {
+						a = up
+					}
+				}
+				env2[p] = a
+			}
+			if t := e.arithOf(ret.Results[0], env2, depth+1); t != nil && t.op != "" {
+				return t
+			}
+		}
+	}
+	return &arith{leaf: v}
 }
